@@ -7,7 +7,7 @@ From Tx3 Require Import Base Tir Tir_proofs Reduce.
 Fixpoint is_value (e : expr) : bool :=
   match e with
   | ENone | EBytes _ | ENumber _ | EBool _ | EString _ | EAddress _ | EHash _ | EUtxoRefs _ | EUtxoSet _ => true
-  | EList _ | EMap _ | ETuple _ _ | EStruct _ _ | EAssets _ => forall_children is_value e
+  | EList _ | EMap _ | ETuple _ _ | EStruct _ _ | EAssets _ | EAdHoc _ _ => forall_children is_value e
   | _ => false
   end.
 
@@ -38,6 +38,14 @@ Proof.
   rewrite IH; [reflexivity|]. intros y Hy. apply H. right. exact Hy.
 Qed.
 
+Lemma omapMkv_id (g : expr -> outcome expr) (l : list (string * expr)) :
+  (forall x, x ∈ l -> g (snd x) = Ok (snd x)) -> omapMkv g l = Ok l.
+Proof.
+  induction l as [|[k v] l IH]; intros H; [reflexivity|].
+  change (omapMkv g ((k, v) :: l)) with (a' <- g v ;; r' <- omapMkv g l ;; Ok ((k, a') :: r')).
+  pose proof (H (k, v) ltac:(left)) as Hv. cbn [snd] in Hv. rewrite Hv. cbn [obind]. rewrite IH; [reflexivity|]. intros y Hy. apply H. right. exact Hy.
+Qed.
+
 Lemma value_constant e : is_value e = true -> is_constant e = true.
 Proof.
   induction e using expr_children_ind. intros Hv.
@@ -56,6 +64,8 @@ Proof.
     apply andb_true_iff in Hv as [Hv Hc]. apply andb_true_iff in Hv as [Ha Hb]. apply elem_of_list_In in Hx.
     repeat (apply andb_true_iff; split); apply H; try assumption; unfold all_children; cbn; rewrite app_nil_r;
       apply elem_of_list_In, in_flat_map; exists (a, b, c); (split; [apply elem_of_list_In; exact Hx|cbn; auto]).
+  - (* EAdHoc *) rewrite forallb_forall in Hv |- *. intros [k v] Hx. cbn [snd]. apply H; [|apply (Hv _ Hx)].
+    unfold all_children. cbn. rewrite app_nil_r. apply elem_of_list_In, in_map_iff. exists (k, v). split; [reflexivity|exact Hx].
 Qed.
 
 (** a common fuel bound for finitely many expressions *)
@@ -85,7 +95,8 @@ Proof.
     - rewrite forallb_forall in Hv. apply Hv. apply elem_of_list_In. exact Hin.
     - apply elem_of_list_In, in_flat_map in Hin as [[[a b] c0] [Hx Hin]]. rewrite forallb_forall in Hv. specialize (Hv _ Hx).
       cbn [fst snd] in Hv. apply andb_true_iff in Hv as [Hv Hc0]. apply andb_true_iff in Hv as [Ha Hb].
-      cbn in Hin. destruct Hin as [<-|[<-|[<-|[]]]]; assumption. }
+      cbn in Hin. destruct Hin as [<-|[<-|[<-|[]]]]; assumption.
+    - apply elem_of_list_In, in_map_iff in Hin as [[k v] [<- Hx]]. rewrite forallb_forall in Hv. apply (Hv _ Hx). }
   destruct (common_bound (fun f c => forall pick, reduce pick f c = Ok c) (all_children e)) as [n Hn].
   { intros c Hin. apply H; [exact Hin|apply Hch; exact Hin]. }
   exists (S n). intros f Hf pick. destruct f as [|f]; [lia|]. assert (Hle : (n <= f)%nat) by lia.
@@ -106,4 +117,8 @@ Proof.
     + intros [[a b] c] Hx. cbn [fst snd].
       repeat split; apply Hkid; unfold all_children; cbn; rewrite app_nil_r; apply elem_of_list_In, in_flat_map; exists (a, b, c);
         (split; [apply elem_of_list_In; exact Hx|cbn; auto]).
+  - (* EAdHoc *) rewrite omapMkv_id.
+    + cbn [obind]. cbn [is_constant] in Hc. rewrite Hc. reflexivity.
+    + intros [k v] Hx. cbn [snd]. apply Hkid. unfold all_children. cbn. rewrite app_nil_r.
+      apply elem_of_list_In, in_map_iff. exists (k, v). split; [reflexivity|apply elem_of_list_In; exact Hx].
 Qed.
